@@ -79,7 +79,9 @@ fn relations(sp: &Sprite, ase: &asefile::AsepriteFile) -> Result<u64, Violation>
                     let tp = tiles.entry(id).or_insert_with(|| ts.tile_image(id)).get_pixel(x % tw, y % th).0;
                     let ea = opacity_product(tp[3], op);
                     let got = img.get_pixel(x, y).0;
-                    let ok = if ea == 0 { got[3] == 0 } else { got == [tp[0], tp[1], tp[2], ea] };
+                    // "the corresponding pixel of the tile ... (alpha scaled by opacity)": the colour channels count for fully
+                    // transparent pixels too (sixth round) - except for the empty tile 0, which need not be drawn at all
+                    let ok = if ea == 0 && id == 0 { got[3] == 0 } else { got == [tp[0], tp[1], tp[2], ea] };
                     if !ok {
                         return Err(Violation::new(
                             "tilemap-image-vs-lookup",
